@@ -679,7 +679,7 @@ func c18hGenPayload() (string, error) {
 		return "", err
 	}
 	s := header("H2Payload", c18hH2Dir+"/frame.go (parse*Frame, Framer.Write*, frameParsers, Flags.Has, readByte, readUint32, SettingsFrame)", c18hH2Dir+"/mhttp2.go (MFramer.write*, frames written in line by MServerConn / MClientConn)")
-	s += c18hPrelude
+	s += "set_option linter.unusedVariables false\n" + c18hPrelude
 	// --- constants
 	for _, c := range []string{"FramePriority", "FrameRSTStream", "FrameSettings", "FramePushPromise", "FramePing", "FrameGoAway", "FrameWindowUpdate",
 		"FrameContinuation", "FrameData", "FrameHeaders", "FlagPingAck", "FlagSettingsAck", "FlagPushPromiseEndHeaders", "FlagPushPromisePadded",
